@@ -31,6 +31,10 @@ def conditions(tier):
         cs.append(Cond("harness.line", "line_after_history", {"kind": kind, "head": head, "history": hist, "maxlen": 1 if q else 2, "maxind": 2}, T=600,
                        label="line.after_history[%s head=%r]" % (kind, head)))
     hist2 = [["open", '    """'], ["touch", "y"], ["reset"]]
+    hist3 = [["open", "```"], ["reset"]]          # a doc string opened in column 1 and never closed
+    for kind, head in (("DocStringSeparator", '"""'), ("Other", " x")):
+        cs.append(Cond("harness.line", "line_after_history", {"kind": kind, "head": head, "history": hist3, "maxlen": 1, "maxind": 2}, T=600,
+                       label="line.after_history[unindented open doc string, %s head=%r]" % (kind, head)))
     for kind, head in (("Other", ""), ("DocStringSeparator", '"""'), ("DocStringSeparator", "```")):
         cs.append(Cond("harness.line", "line_after_history", {"kind": kind, "head": head, "history": hist2, "maxlen": 1 if q else 2, "maxind": 2}, T=600,
                        label="line.after_history[no dialect change, %s head=%r]" % (kind, head)))
